@@ -109,6 +109,20 @@ func repValue(r *rng, d Doc, depth int) any {
 			v = string(x)
 		}
 	case DArr:
+		if bs, ok := asBytes(x); ok && r.chance(1, 3) {
+			// arrays of small non-negative integers as []byte, [N]byte, named byte slices
+			switch r.intn(3) {
+			case 0:
+				v = bs
+			case 1:
+				arr := reflect.New(reflect.ArrayOf(len(bs), reflect.TypeFor[byte]())).Elem()
+				reflect.Copy(arr, reflect.ValueOf(bs))
+				v = arr.Interface()
+			default:
+				v = MyBytes(bs)
+			}
+			break
+		}
 		elems := make([]any, len(x))
 		for i, e := range x {
 			elems[i] = repValue(r, e, depth+1)
@@ -134,6 +148,28 @@ func repValue(r *rng, d Doc, depth int) any {
 		return p.Interface()
 	}
 	return v
+}
+
+type MyBytes []byte
+
+// asBytes: every element a number with an integral value in 0..255
+func asBytes(a DArr) ([]byte, bool) {
+	if len(a) == 0 {
+		return nil, false
+	}
+	out := make([]byte, len(a))
+	for i, e := range a {
+		n, ok := e.(DNum)
+		if !ok {
+			return nil, false
+		}
+		rat := ratOf(string(n))
+		if !rat.IsInt() || rat.Sign() < 0 || rat.Num().Cmp(big.NewInt(255)) > 0 {
+			return nil, false
+		}
+		out[i] = byte(rat.Num().Int64())
+	}
+	return out, true
 }
 
 func sameType(xs []any) reflect.Type {
@@ -194,6 +230,8 @@ func packMap(r *rng, m map[string]any) any {
 	kt := reflect.TypeFor[string]()
 	if r.chance(1, 3) {
 		kt = reflect.TypeFor[MyKey]()
+	} else if r.chance(1, 5) {
+		kt = reflect.TypeFor[json.Number]() // a string kind: its values are property names, never numbers
 	}
 	if et == reflect.TypeFor[any]() && kt == reflect.TypeFor[string]() {
 		return m
@@ -241,6 +279,29 @@ func genReprCase(r *rng, id string) *ValCase {
 			docs = append(docs, a)
 		}
 		docs = append(docs, DArr{DNum("1"), DNum("2")})
+	} else if r.chance(1, 6) {
+		// property names that look like numbers (maps keyed by json.Number carry them too): a name
+		// is a string for propertyNames / patternProperties and for object equality
+		numNames := []string{"1", "10", "1.0", "1e0", "-0", "a"}
+		if r.chance(1, 2) {
+			doc = DObj{{"propertyNames", pick(r, []Doc{DObj{{"maxLength", DNum("1")}}, DObj{{"type", DStr("string")}}, DObj{{"const", DStr("10")}},
+				DObj{{"pattern", DStr("^1")}}, DObj{{"enum", DArr{DStr("1"), DStr("a")}}}, DObj{{"minLength", DNum("2")}}})}}
+			for i := 0; i < 4; i++ {
+				o := DObj{}
+				for _, nm := range shuffled(r, numNames)[:1+r.intn(2)] {
+					o = append(o, DMem{nm, DNum("1")})
+				}
+				docs = append(docs, o)
+			}
+		} else {
+			doc = DObj{{"uniqueItems", DBool(true)}}
+			for i := 0; i < 4; i++ {
+				n1, n2 := pick(r, numNames), pick(r, numNames)
+				docs = append(docs, DArr{DObj{{n1, DNum("1")}}, DObj{{n2, DNum("1")}}})
+			}
+		}
+		c.Doc = doc
+		g.smallNums = false
 	} else {
 		for i := 0; i < 3; i++ {
 			docs = append(docs, g.instFor(doc, doc, 3))
@@ -384,6 +445,28 @@ func genEqualCase(r *rng, id string) *EqualCase {
 		}
 		// integers beyond 2^53 only in int64/uint64/json.Number: repNumber handles by exactness
 		a, b := instOf(repValue(r, d1, 0)), instOf(repValue(r, d2, 0))
+		if r.chance(1, 10) {
+			// byte containers: []byte, [N]byte (not addressable when passed by value), named byte slices
+			bs := []byte{byte(r.intn(3)), byte(r.intn(3))}
+			other := []byte{bs[0], byte(r.intn(3))}
+			mk := func(b []byte) any {
+				switch r.intn(4) {
+				case 0:
+					return [2]byte{b[0], b[1]}
+				case 1:
+					return MyBytes(b)
+				case 2:
+					return []any{float64(b[0]), json.Number(fmt.Sprint(b[1]))}
+				default:
+					return append([]byte(nil), b...)
+				}
+			}
+			x, y := mk(bs), mk(other)
+			if r.chance(1, 3) {
+				x, y = []any{x}, []any{y}
+			}
+			a, b = instOf(x), instOf(y)
+		}
 		if r.chance(1, 8) {
 			// two slices over one backing array: a prefix (or a suffix, or an empty reslice) of a
 			// slice against the slice itself - equal only when they have the same elements
